@@ -415,6 +415,19 @@ let run_case_inner (a : string array) : string =
     out m s (Lazy.force e.wf)
   | _ -> "?unknown-op"
 
+(* F9b: the overflow half of the finding without the sentinel: an extended zone whose table ends before ~2196
+   (last file transition before ~1795): BreakTime's shift * kSecsPer400Years overflows for instants near max() *)
+let f9b_zone (e : zentry) : bool =
+  match Lazy.force e.model with
+  | OK (Some z) when z.z_extended ->
+    (match List.rev z.z_trans with
+     | l :: _ -> not (zlt (z_of_string "7161147007") l.tr_time)
+     | [] -> false)
+  | _ -> false
+
 let run_case (a : string array) : string =
   let r = run_case_inner a in
-  if Array.length a > 1 && known_zone a.(1) && f9_zone (get a.(1)) then r ^ " ; K F9" else r
+  if Array.length a > 1 && known_zone a.(1) then begin
+    let e = get a.(1) in
+    if f9_zone e then r ^ " ; K F9" else if f9b_zone e then r ^ " ; K F9b" else r
+  end else r
